@@ -154,6 +154,8 @@ where
             account.mark_touch();
             let _ = state.insert(self.beneficiary, account);
         }
+        #[cfg(feature = "verif")]
+        crate::verif::event(crate::verif::Event::Commit { txid, result: &result, state: &state, reward: deferred_reward.map(|reward| reward.verif_amount()) });
         self.state.commit(state);
         Ok(CommitOutcome::Committed(output.push(result)))
     }
